@@ -46,8 +46,11 @@ PROP = dict(
           "cells where what is carried inside would give the other verdict, or nothing is carried, or E / the outer type is one of the special types "
           "above (std::nested_exception included), or the ambient state is not plain. "
           "Distinct = distinct case encodings (hash)."),
-    assumptions=["expectation_failed::msg is only read when the message is a string literal (macro-generated); in the wrong-type arm of "
-                 "expect_raises it points into a destroyed std::string and only what() is inspected",
+    assumptions=["expectation_failed::msg is copied inside the catch handler (while the exception object is alive) and only for the comparison macros, "
+                 "whose message the statement promises; in the wrong-type arm of expect_raises it points (in /repo) into a destroyed std::string and only "
+                 "what() is inspected",
+                 "'throws / fails with expectation_failed' is satisfied by a class derived from expectation_failed (counted as "
+                 "failure-is-a-class-derived-from-expectation_failed)",
                  "the expected verdict of expect_raises<E> for a thrown T is std::is_convertible<const T*, const E*> (public unambiguous base), i.e. "
                  "exactly what a `catch (const E&)` handler matches; cells where T derives from E only through an ambiguous or inaccessible base "
                  "(E = std::exception with the two-subobject type; E = std::exception / runtime_error with the private-base type) are left open: "
